@@ -273,9 +273,10 @@ def run_two_sessions(seed, tape, opts):
             for d, mgr in (("l2f", pr["MF"]), ("f2l", pr["ML"])):
                 got = mgr.records
                 want = pr["recs"][d]
-                if got != want[:len(got)]:
+                if _typed(got) != _typed(want[:len(got)]):
                     j = next((j for j in range(len(got)) if j >= len(want) or
-                              got[j] != want[j]), len(got))
+                              _typed([got[j]]) != _typed([want[j]])),
+                             len(got))
                     V("C12.record_differs", "every record handed to an L2 "
                       "connection is recovered identically by the peer (and "
                       "nothing else reaches the manager)",
@@ -299,7 +300,7 @@ def run_two_sessions(seed, tape, opts):
                 V("C12.no_connection", "an unmanipulated pair completes the "
                   "L2 handshake", "session %d" % i)
             for d, mgr in (("l2f", pr["MF"]), ("f2l", pr["ML"])):
-                if mgr.records != pr["recs"][d]:
+                if _typed(mgr.records) != _typed(pr["recs"][d]):
                     V("C12.incomplete", "without manipulation every record "
                       "arrives", "session %d %s: %d of %d" %
                       (i, d, len(mgr.records), len(pr["recs"][d])))
@@ -478,9 +479,10 @@ def run_one(seed, tape, opts):
         def oracle():
             for d, mgr in (("l2f", MF), ("f2l", ML)):
                 got = mgr.records
-                if got != recs[d][:len(got)]:
+                if _typed(got) != _typed(recs[d][:len(got)]):
                     i = next((i for i in range(len(got))
-                              if i >= len(recs[d]) or got[i] != recs[d][i]),
+                              if i >= len(recs[d]) or
+                              _typed([got[i]]) != _typed([recs[d][i]])),
                              len(got))
                     V("C12.record_differs", "every record handed to an L2 "
                       "connection is recovered identically by the peer",
@@ -502,7 +504,7 @@ def run_one(seed, tape, opts):
                 if c is None or not c.fired:
                     other = cor.get("f2l" if d == "l2f" else "l2f")
                     if other is None or not other.fired:
-                        if mgr.records != recs[d]:
+                        if _typed(mgr.records) != _typed(recs[d]):
                             V("C12.incomplete", "without manipulation every "
                               "record arrives", "%s: %d of %d" %
                               (d, len(mgr.records), len(recs[d])))
@@ -555,6 +557,12 @@ def _maybe_length_flip(p):
         return len(buf) > 0
     claimed = int.from_bytes(buf[:4], "big")
     return len(buf) < 4 + claimed
+
+
+def _typed(records):
+    # the record classes are namedtuples: Ping(x) == Pong(x) by plain
+    # equality, so the class is compared explicitly
+    return [(type(r).__name__, tuple(r)) for r in records]
 
 
 def _short(r):
